@@ -124,6 +124,9 @@ func satAdd(a, b int64) int64 {
 	return a + b
 }
 
+// counterfactual is set while ExecRPlan re-runs a history with another timeout.
+var counterfactual bool
+
 // ExecRPlan interprets a plan against a real Reassembler inside the current
 // bubble and evaluates the C01 C02 C03 C10 C19 oracles over the history.
 func ExecRPlan(p *RPlan, trace bool) *core.Result {
@@ -164,6 +167,7 @@ func ExecRPlan(p *RPlan, trace bool) *core.Result {
 	var lastOff uint32
 	closed := false
 	closeSeen := false
+	earlyAtCreation := false
 	maxDeliveredOff := int64(-1)
 	var evictedOffs []uint32
 	viol := func(prop, kind, class, f string, a ...any) {
@@ -254,7 +258,13 @@ func ExecRPlan(p *RPlan, trace bool) *core.Result {
 		res.Ops++
 
 		// --- model: effect of the push itself ---
-		if isPush && !closed {
+		if isPush {
+			// PushMessage keeps working after Close (nothing flushes what it
+			// buffers then, but ordering, loss accounting and the buffer bound
+			// are promised for every call history).
+			if closed {
+				res.Probes[prPushAfterClose]++
+			}
 			seq := seqOf(op.Off)
 			if op.Typ == tEOE {
 				if in := buffered[seq]; in != nil {
@@ -279,12 +289,10 @@ func ExecRPlan(p *RPlan, trace bool) *core.Result {
 				if completes(op.Typ) {
 					in.complete = true
 				}
-				pushedOK[i] = true
+				pushedOK[i] = !closed // delivery by the end is only promised for what was pushed before Close
 			}
-		} else if isPush && closed {
-			res.Probes[prPushAfterClose]++
 		}
-		if !closed && len(buffered) > 1 {
+		if len(buffered) > 1 {
 			lo, hi := uint32(math.MaxUint32), uint32(0)
 			for s := range buffered {
 				if s < lo {
@@ -365,11 +373,8 @@ func ExecRPlan(p *RPlan, trace bool) *core.Result {
 			if !inWin {
 				continue
 			}
-			if closed && op.K != opClose {
-				// after Close the statements only promise safety.
-				if op.K == opMaintain {
-					viol("C19", "callback-after-close", "Maintain", "Maintain after Close delivered sequence %d", seq)
-				}
+			if closed && op.K == opMaintain {
+				viol("C19", "callback-after-close", "Maintain", "Maintain after Close delivered sequence %d", seq)
 				continue
 			}
 			if closeSeen && op.K == opClose {
@@ -415,6 +420,10 @@ func ExecRPlan(p *RPlan, trace bool) *core.Result {
 					if now > in.created {
 						viol("C19", "flushed-before-timeout", ropNames[op.K], "call #%d at t=%s delivered incomplete sequence %d created at t=%s before its timeout %s elapsed (occupancy %d <= %d)",
 							i, time.Duration(now), seq, time.Duration(in.created), time.Duration(p.Timeout), occupancy, p.Max)
+					} else {
+						// delivered in the instant it was created: whether that was
+						// "on account of time" is decided by a counterfactual run below
+						earlyAtCreation = true
 					}
 				}
 			} else {
@@ -458,7 +467,7 @@ func ExecRPlan(p *RPlan, trace bool) *core.Result {
 		if groupsInCall > 1 && op.K != opClose {
 			res.Probes[prMultiEvictOneCall]++
 		}
-		postClose := closed // the call was made after Close: only safety is promised
+		postClose := closed && (op.K == opMaintain || op.K == opClose) // any callback there is already a C19 violation
 		if lostInCall != expectedLost && !postClose {
 			cls := "gap"
 			if lostInCall > expectedLost {
@@ -472,8 +481,8 @@ func ExecRPlan(p *RPlan, trace bool) *core.Result {
 		// --- after-call invariants ---
 		switch op.K {
 		case opPushMsg, opPushRaw, opPushNil, opPushBad, opMaintain:
-			if closed {
-				if op.K == opMaintain && callErr == nil {
+			if closed && op.K == opMaintain {
+				if callErr == nil {
 					viol("C19", "maintain-after-close-ok", "Maintain", "Maintain returned nil after Close (call #%d)", i)
 				}
 				break
@@ -545,6 +554,29 @@ func ExecRPlan(p *RPlan, trace bool) *core.Result {
 			if ok && deliveredCnt[id] != 1 {
 				viol("C01", "message-not-delivered", "delivery", "message #%d (offset %d type %d) pushed before Close was delivered %d times", id, p.Ops[id].Off, p.Ops[id].Typ, deliveredCnt[id])
 			}
+		}
+	}
+	if earlyAtCreation && !counterfactual {
+		// Same history with another (ordinary, far-away) timeout: if the early
+		// delivery disappears, the decision depended on the timeout value, i.e.
+		// the event was delivered on account of time before its timeout.
+		alt := *p
+		alt.Timeout = 3600e9
+		if p.Timeout == alt.Timeout {
+			alt.Timeout = 7200e9
+		}
+		counterfactual = true
+		r2 := ExecRPlan(&alt, false)
+		counterfactual = false
+		still := false
+		for _, v := range r2.Violations {
+			if v.Property == "C10" && v.Kind == "evicted-without-cause" {
+				still = true
+			}
+		}
+		if !still {
+			viol("C19", "flushed-before-timeout", "timeout-dependent", "an incomplete event was delivered in the instant it was created with timeout %s (no overflow of the buffer); with a timeout of %s the same history does not deliver it: the decision was made on account of time",
+				time.Duration(p.Timeout), time.Duration(alt.Timeout))
 		}
 	}
 	res.SimNs = int64(time.Since(start))
